@@ -4,6 +4,7 @@ import (
 	"fmt"
 	"go/token"
 	"go/types"
+	"os"
 	"sort"
 	"strings"
 
@@ -82,7 +83,7 @@ func ruleIsWaitTable(c *Ctx, rule string) {
 	if build == nil {
 		return
 	}
-	stores := storesToField(withClosures(build), "internal/kessoku.InjectorCallArgument.IsWait")
+	stores := storesToField(family(L, build), "internal/kessoku.InjectorCallArgument.IsWait")
 	all := storesToField(pkgFuncs(L, genPkg), "internal/kessoku.InjectorCallArgument.IsWait")
 	c.check(len(all) == len(stores) && len(stores) >= 1, rule, "InjectorCallArgument.IsWait:single-writer", L.pos(build.Pos()),
 		"the wait flag of a call argument is computed in exactly one place (Graph.Build)", fmt.Sprintf("%d store(s) in Build, %d in the package", len(stores), len(all)))
@@ -248,7 +249,13 @@ func ruleChannelGuards(c *Ctx, rule string) {
 			continue
 		}
 		n := 0
-		for _, cs := range callsIn(fn) {
+		var famCalls []callSite
+		for _, f2 := range family(L, fn) {
+			if f2.Parent() == nil {
+				famCalls = append(famCalls, callsIn(f2)...)
+			}
+		}
+		for _, cs := range famCalls {
 			if cs.common.StaticCallee() == nil || cs.common.StaticCallee().Name() != "ChannelName" || cs.value() == nil {
 				continue
 			}
@@ -257,6 +264,12 @@ func ruleChannelGuards(c *Ctx, rule string) {
 			if err != "" {
 				c.undecided(rule, fnName(fn)+":ChannelName-guard", err)
 				continue
+			}
+			if os.Getenv("KVERIF_TABLE") != "" {
+				fmt.Println("TABLE", fnName(cs.fn), "start block", regionStart(cs.instr).Index)
+				for _, r := range rows {
+					fmt.Println("   ", r.reached, r.errExit, rowString(r, ids))
+				}
 			}
 			var wc, iw []string
 			for _, id := range ids {
@@ -288,7 +301,7 @@ func ruleChannelGuards(c *Ctx, rule string) {
 						inLoop = false
 					}
 				}
-				if !inLoop || r.errExit {
+				if !inLoop || r.errExit || r.stuck {
 					continue
 				}
 				other := true
@@ -559,11 +572,46 @@ func strictlyBefore(a, b ssa.Instruction) bool {
 	return reachableAfter(a, b) && !reachableAfter(b, a)
 }
 
+// stmtElem: one element of a statement list under construction - an append(list, x) or the i-th element of the slice
+// literal the list starts from. at is the instruction that puts it there (the append call, or the store into the literal's
+// backing array); order of execution of those instructions is order in the list.
+type stmtElem struct {
+	at    ssa.Instruction
+	val   ssa.Value
+	label string
+}
+
+func stmtElems(L *Loaded, fn *ssa.Function) []stmtElem {
+	var out []stmtElem
+	for _, a := range appendsIn(L, fn) {
+		out = append(out, stmtElem{a.call, a.call.Common().Args[1], a.label})
+	}
+	// elements of []ast.Stmt literals
+	for _, b := range fn.Blocks {
+		for _, in := range b.Instrs {
+			st, ok := in.(*ssa.Store)
+			if !ok {
+				continue
+			}
+			ia, ok := st.Addr.(*ssa.IndexAddr)
+			if !ok {
+				continue
+			}
+			al, ok := ia.X.(*ssa.Alloc)
+			if !ok || !strings.Contains(al.Type().String(), "]go/ast.Stmt") || al.Comment == "varargs" {
+				continue
+			}
+			out = append(out, stmtElem{st, st.Val, labelOfElem(L, st.Val)})
+		}
+	}
+	return out
+}
+
 // G5: statement order inside a producer statement.
 func ruleStmtOrder(c *Ctx, rule string) {
 	L := c.L
 	if fn := genFn(c, rule, "(*InjectorProviderCallStmt).Stmt"); fn != nil {
-		var wait, decl, assign, errh, closeS *ssa.Call
+		var wait, decl, assign, errh, closeS ssa.Instruction
 		roleOf := func(v ssa.Value) *ssa.Function {
 			// the module function whose result is appended (directly, through an if-non-nil phi, or as a spread)
 			v = resolve(v)
@@ -586,30 +634,31 @@ func ruleStmtOrder(c *Ctx, rule string) {
 		closeFn := resolveRole(c, genPkg, "(*InjectorProviderCallStmt).generateChannelCloseStatement")
 		assignFn := resolveRole(c, genPkg, "(*InjectorProviderCallStmt).buildAssignmentStatement")
 		errFn := resolveRole(c, genPkg, "(*InjectorProviderCallStmt).buildErrorHandlingStatement")
-		for _, a := range appendsIn(L, fn) {
-			r := roleOf(a.call.Common().Args[1])
+		for _, a := range stmtElems(L, fn) {
+			r := roleOf(a.val)
 			switch {
 			case r != nil && r == waitFn:
-				wait = a.call
+				wait = a.at
 			case strings.Contains(a.label, "lit:DeclStmt"):
-				decl = a.call
-			case r != nil && r == assignFn:
-				assign = a.call
+				decl = a.at
+			case r != nil && assignFn != nil && r == assignFn, strings.Contains(a.label, "lit:AssignStmt"):
+				// the call statement: built by the helper or written out in place
+				assign = a.at
 			case r != nil && r == errFn:
-				errh = a.call
+				errh = a.at
 			case r != nil && r == closeFn:
-				closeS = a.call
+				closeS = a.at
 			}
 		}
 		if wait == nil || assign == nil || errh == nil || closeS == nil || decl == nil {
 			var ls []string
-			for _, a := range appendsIn(L, fn) {
+			for _, a := range stmtElems(L, fn) {
 				ls = append(ls, a.label)
 			}
-			c.undecided(rule, fnName(fn)+":append-chain", fmt.Sprintf("cannot identify wait/decl/assign/errcheck/close among the appends %v", ls))
+			c.undecided(rule, fnName(fn)+":append-chain", fmt.Sprintf("cannot identify wait/decl/assign/errcheck/close among the list elements %v", ls))
 		} else {
 			type pair struct {
-				a, b *ssa.Call
+				a, b ssa.Instruction
 				what string
 			}
 			for _, p := range []pair{
@@ -620,24 +669,24 @@ func ruleStmtOrder(c *Ctx, rule string) {
 				{assign, closeS, "the done-channels are closed after the call returned"},
 			} {
 				c.check(strictlyBefore(p.a, p.b), rule, fnName(fn)+":order:"+p.what, L.pos(p.b.Pos()), fnName(fn)+": "+p.what,
-					fmt.Sprintf("append in block %d precedes append in block %d on every path", p.a.Block().Index, p.b.Block().Index))
+					fmt.Sprintf("element added in block %d precedes element added in block %d on every path", p.a.Block().Index, p.b.Block().Index))
 			}
 		}
 	}
 	if fn := genFn(c, rule, "(*InjectorFieldAccessStmt).Stmt"); fn != nil {
-		var assign, closeS *ssa.Call
-		for _, a := range appendsIn(L, fn) {
+		var assign, closeS ssa.Instruction
+		for _, a := range stmtElems(L, fn) {
 			if strings.Contains(a.label, "lit:AssignStmt") {
-				assign = a.call
+				assign = a.at
 			}
 			if strings.Contains(a.label, "lit:ExprStmt") {
-				closeS = a.call
+				closeS = a.at
 			}
 		}
 		if assign == nil || closeS == nil {
 			c.undecided(rule, fnName(fn)+":append-chain", "cannot identify the field read and the close")
 		} else {
-			c.check(strictlyBefore(assign, closeS), rule, fnName(fn)+":order:read-before-close", L.pos(closeS.Pos()), fnName(fn)+": the field is read before its done-channel is closed", "append order")
+			c.check(strictlyBefore(assign, closeS), rule, fnName(fn)+":order:read-before-close", L.pos(closeS.Pos()), fnName(fn)+": the field is read before its done-channel is closed", "list order")
 		}
 	}
 }
@@ -908,7 +957,7 @@ func rulePoolsProcessed(c *Ctx, rule string) {
 		c.check(found, rule, fmt.Sprintf("%s:pool-marked-processed#%d", fnName(fn), n), L.pos(cs.instr.Pos()),
 			"after a pool's statements are built its nodes are added to the processed set (otherwise pools depending on it are silently never emitted)", "map update keyed by the pool's elements, dominated by the build call")
 	}
-	c.floor(rule, "buildPoolStmtsSimple call sites in buildStmts", n, 4)
+	c.floor(rule, "buildPoolStmtsSimple call sites in buildStmts", n, 3)
 }
 
 // unused import guard
